@@ -149,7 +149,12 @@ func TestC15bStoredValues(t *testing.T) {
 				}
 			}
 			orig := append([]byte(nil), content[key]...)
-			n, _ := h.restart(restartOpts{K: h.Store.NOps(), Late: true, Config: cfg, Mutate: func(store map[uint][]byte) {
+			// (the Persistence may refuse to delete what is found corrupt: reported all the same, never used)
+			var adoptFaults []byte
+			if rapid.IntRange(0, 3).Draw(rt, "deleteFailsDuringAdoption") == 0 {
+				adoptFaults = []byte{'D'}
+			}
+			n, _ := h.restart(restartOpts{K: h.Store.NOps(), Late: true, Config: cfg, AdoptFailNext: adoptFaults, Mutate: func(store map[uint][]byte) {
 				v := append([]byte{}, store[key]...)
 				if short >= 0 {
 					store[key] = v[:short]
@@ -168,6 +173,9 @@ func TestC15bStoredValues(t *testing.T) {
 				damagedPacket = nil
 			} else if pos < len(damagedPacket) {
 				damagedPacket[pos] ^= x
+			}
+			if n.AdoptPanic != "" {
+				n.Failf("AdoptSession panicked on a record altered in one byte (failing Persistence operations %q): %s", adoptFaults, n.AdoptPanic)
 			}
 			if n.Fatal == nil {
 				single, ranges := warnedKeys(n.Warn)
